@@ -124,7 +124,7 @@ def _small_model(path, neg, m, opts):
     return m2 if r2 == "sat" else m
 
 
-def prove_eqs(path, eqs, split_vars, out, opts):
+def prove_eqs(path, eqs, split_vars, out, opts, split_vars2=()):
     """claim: a == b for every (a, b) in eqs, under the path's antecedent.  (verdict, model).
     Every equation is linear in the direction symbols `split_vars`; when the joint query is not decided
     quickly it is split per equation and per unit direction (d := e_i), which is equivalent by linearity."""
@@ -175,7 +175,26 @@ def prove_eqs(path, eqs, split_vars, out, opts):
             if z3.is_rational_value(di):
                 if di.numerator_as_long() == 0:
                     continue
-            r, m = q(di != 0, opts["timeout_ms"], True)
+            r, m = q(di != 0, fast if split_vars2 else opts["timeout_ms"], not split_vars2)
+            if r == "unknown" and split_vars2:
+                # second level: the residual is linear in the cotangent symbols as well
+                present2 = term_vars([di])
+                svs2 = [u for u in split_vars2 if u.decl().name() in present2]
+                r = "unsat"
+                for u in svs2:
+                    sub2 = [(w, z3.RealVal(1 if w.eq(u) else 0)) for w in svs2]
+                    dij = z3.simplify(z3.substitute(di, *sub2))
+                    if z3.is_rational_value(dij) and dij.numerator_as_long() == 0:
+                        continue
+                    r2, m2 = q(dij != 0, opts["timeout_ms"], True)
+                    if r2 == "sat":
+                        m2 = dict(m2 or {})
+                        for w in svs2:
+                            m2[w.decl().name()] = Fr(1 if w.eq(u) else 0)
+                        r, m = "sat", m2
+                        break
+                    if r2 == "unknown":
+                        return "unknown", None
             if r == "sat":
                 m = dict(m or {})
                 for w in svs:
@@ -537,6 +556,7 @@ def _decide(cfg, out, paths, opts, mode):
             lhs = pair(got, x, 0, 1, conj_a=True)
             rhs = pair(res["g"], res["y"], 0, 1, conj_a=True)
             eqs = [(lhs, rhs)]
+            gvars = [t for t in coeffs(res["g"], 0) if type(t) is not Fr and z3.is_const(t)]
         else:
             tan = res["tan"]
             y = res["y"]
@@ -547,7 +567,7 @@ def _decide(cfg, out, paths, opts, mode):
                 return
             # the tangent v is the direction d itself: tangent == f'(x; d) entry-wise
             eqs = list(zip(coeffs(tan, 0), coeffs(y, 1)))
-        v, model = prove_eqs(p, eqs, dir_vars(x), out, opts)
+        v, model = prove_eqs(p, eqs, dir_vars(x), out, opts, split_vars2=gvars if mode == "vjp" else ())
         if v == "unsat":
             continue
         if v == "unknown":
